@@ -69,8 +69,10 @@ def impl_mra(c):
     # `values`: what the Variables hold when the matrix is built (left by an earlier solve: zeros where a multiplier was inactive);
     # the matrix is a statement about the symbolic coefficients and must not depend on it
     env = st.SymEnv(c['sizes'], values=c.get('values'))
-    s = st.build_sym(c['s'], env)
-    h = st.build_sym(c['h'], env)
+    # `raw`: the exponents as the caller writes them (e.g. 1/3, off the 7-decimal grid); c['s'], c['h'] hold what the constructor
+    # makes of them (rounded to 7 decimals), which is what the model and the oracle reason about
+    s = st.build_sym(c.get('raw', c)['s'], env)
+    h = st.build_sym(c.get('raw', c)['h'], env)
     L = st.build_sym(c['L'], env)
     C = sc.moment_reduction_array(s, h, L)
     return {'C': [[st.fr(x) for x in row] for row in np.asarray(C, dtype=float).tolist()]}
@@ -229,9 +231,75 @@ def gen_mra_cancel_case(rng):
     return out
 
 
+def gen_mra_thirds_case(rng):
+    """exponents that are multiples of 1/3: the constructor puts them on the 7-decimal grid (0.3333333, 0.6666667); L is what
+    arithmetic on the constructed s and h produces (sums of grid values), plus extra rows"""
+    n = rng.randint(1, 2)
+    ms, mh = rng.randint(2, 3), 2
+
+    def rows(m):
+        seen, out = set(), []
+        while len(out) < m:
+            r = tuple(F(rng.randint(0, 4), 3) for _ in range(n))
+            if r not in seen:
+                seen.add(r)
+                out.append(list(r))
+        return out
+    sraw, hraw = rows(ms), rows(mh)
+    sg = [[st.round7(x) for x in r] for r in sraw]
+    hg = [[st.round7(x) for x in r] for r in hraw]
+    if len({tuple(r) for r in sg}) < ms or len({tuple(r) for r in hg}) < mh:
+        return gen_mra_case(rng)
+    need = []
+    for si in sg:
+        for hj in hg:
+            r = [st.round7(a + b) for a, b in zip(si, hj)]
+            if r not in need:
+                need.append(r)
+    Lrows = need + [r for r in rand_rows(rng, rng.randint(0, 2), n, False) if r not in need]
+    rng.shuffle(Lrows)
+    hc = [frac_str(F(rng.choice([-3, -1, 1, 2, 5]))) for _ in range(mh)]
+    coefs = [{'off': '0', 'co': [[i, '1']]} for i in range(ms)]
+    L = leaf(Lrows, [{'off': '0', 'co': [[ms + i, '1']]} for i in range(len(Lrows))], n, False, sym=True)
+    return {'sizes': [ms, len(Lrows)], 's': leaf(sg, coefs, n, False, sym=True, purevar=0), 'h': leaf(hg, hc, n, False), 'L': L,
+            'raw': {'s': leaf(sraw, coefs, n, False, sym=True, purevar=0), 'h': leaf(hraw, hc, n, False)}, 'kind': 'thirds'}
+
+
+def gen_mra_tiny_case(rng):
+    """numeric multiplier with one coefficient of size 1e-9 (not zero): the exponents its term contributes to s*h are part of the
+    product; L lacks one of them, which must be reported"""
+    n = rng.randint(1, 2)
+    poly = rng.random() < 0.4
+    srows = rand_rows(rng, 2, n, poly)
+    hrows = rand_rows(rng, rng.randint(1, 2), n, poly)
+    hc = [frac_str(F(rng.choice([-3, -1, 1, 2, 5]))) for _ in hrows]
+    tiny = F(rng.choice([1, -2, 5]), 10 ** rng.choice([9, 10, 12]))
+    s = leaf(srows, ['1', frac_str(tiny)], n, poly)
+    big = [[a + b for a, b in zip(srows[0], hj)] for hj in hrows]
+    small = [[a + b for a, b in zip(srows[1], hj)] for hj in hrows]
+    only_small = [r for r in small if r not in big]
+    need = big + [r for r in small if r not in big]
+    Lrows = list(need)
+    kind = 'tiny-contained'
+    if only_small and rng.random() < 0.7:
+        Lrows.remove(rng.choice(only_small))
+        kind = 'tiny-missing'
+    Lrows += [r for r in rand_rows(rng, rng.randint(0, 2), n, poly) if r not in need]
+    rng.shuffle(Lrows)
+    if not Lrows:
+        return gen_mra_case(rng)
+    L = leaf(Lrows, [{'off': '0', 'co': [[2 + i, '1']]} for i in range(len(Lrows))], n, poly, sym=True)
+    return {'sizes': [2, len(Lrows)], 's': s, 'h': leaf(hrows, hc, n, poly), 'L': L, 'kind': kind}
+
+
 def gen_mra_case(rng):
-    if rng.random() < 0.08:
+    r0 = rng.random()
+    if r0 < 0.08:
         return gen_mra_cancel_case(rng)
+    if r0 < 0.16:
+        return gen_mra_thirds_case(rng)
+    if r0 < 0.24:
+        return gen_mra_tiny_case(rng)
     n = rng.randint(1, 3)
     poly = rng.random() < 0.4
     ms, mh = rng.randint(1, 3), rng.randint(1, 3)
